@@ -189,7 +189,7 @@ func dropAllFixtures() {
 	}
 }
 
-func (f *fixture) create(ctr string, ann map[string]string, rq *ReqCtx) (*api.CreateContainerResponse, error) {
+func (f *fixture) send(ctr string, ann map[string]string, rq *ReqCtx) (*api.CreateContainerResponse, error) {
 	req := &api.CreateContainerRequest{
 		Pod:       &api.PodSandbox{Id: "pod0", Name: "pod0", Uid: "uid0", Namespace: "default", Annotations: ann},
 		Container: &api.Container{Id: "ctr0", PodSandboxId: "pod0", Name: ctr},
@@ -226,11 +226,11 @@ func (f *fixture) healthy() error {
 	hc := fmt.Sprintf("hc-%d-%d", os.Getpid(), f.probes)
 	for _, p := range probes {
 		p.key = strings.Replace(p.key, "container.hc", "container."+hc, 1)
-		rsp, err := f.create(hc, map[string]string{p.key: p.good}, nil)
+		rsp, err := f.send(hc, map[string]string{p.key: p.good}, nil)
 		if err != nil || p.n(rsp.GetAdjust()) > 0 {
 			continue
 		}
-		if _, err := f.create(hc, map[string]string{p.key: p.bad}, nil); err != nil {
+		if _, err := f.send(hc, map[string]string{p.key: p.bad}, nil); err != nil {
 			continue
 		}
 		return fmt.Errorf("%s does not answer (neither a contribution nor an error)", p.name)
@@ -464,7 +464,23 @@ func prefixRelated(a, b string) bool {
 }
 
 // judge runs one request and compares it with the expectation.
-func judge(f *fixture, c C20Case) ev.Outcome {
+// transport is where a request goes: the adaptation with its two launched plugins, or the
+// raw runtime end of one plugin process.
+type transport interface {
+	create(ctr string, ann map[string]string, rq *ReqCtx) (*api.CreateContainerResponse, error, createNotes)
+}
+
+type createNotes struct {
+	podChanged bool // the runtime-side pod differed after the call
+	recurred   bool // the name came back after >= 1024 other distinct names
+}
+
+func (f *fixture) create(ctr string, ann map[string]string, rq *ReqCtx) (*api.CreateContainerResponse, error, createNotes) {
+	rsp, err := f.send(ctr, ann, rq)
+	return rsp, err, createNotes{podChanged: f.podChanged, recurred: f.recurred}
+}
+
+func judge(f transport, c C20Case) ev.Outcome {
 	o := ev.Outcome{}
 	ann := map[string]string{}
 	perFam := map[string]int{}
@@ -645,11 +661,11 @@ func judge(f *fixture, c C20Case) ev.Outcome {
 	overlap := reqClasses(c, app, &o)
 	o.NonTrivial = competing || related || anyIll || overlap
 
-	rsp, err := f.create(c.Ctr, ann, c.Req)
-	if f.podChanged {
+	rsp, err, notes := f.create(c.Ctr, ann, c.Req)
+	if notes.podChanged {
 		o.Lenient = append(o.Lenient, "request_pod_changed_by_call")
 	}
-	if f.recurred {
+	if notes.recurred {
 		o.Classes = append(o.Classes, "recur:name_after_1024_other_names")
 	}
 	switch {
@@ -1050,6 +1066,7 @@ func TestExh_C20(t *testing.T) {
 	r.SetExtra("combination_sweep_requests", sweepCombinations(t, r))
 	r.SetExtra("repetition_sweep_cases", sweepRepetition(t, r))
 	r.SetExtra("many_names_sweep_requests", sweepManyNames(t, r))
+	r.SetExtra("concurrent_sweep_requests", sweepConcurrent(t, r))
 	r.SetExtra("exhaustive", false) // only the key-presence sub-domain is enumerated
 	r.SetExtra("exhaustive_subdomain", "per plugin option set (6) and key family (4), all 32 presence combinations of {container key for this container, for a prefix-named container, for an extension-named container, pod key, bare key}")
 }
